@@ -18,7 +18,7 @@ import (
 //	jobj(t, w)  members written so far: name -> optional value term
 //	jdup(t, w)  some member name was written twice
 //	jkey(t, w)  the name awaiting its value (state K)
-//	jarr(t, w)  items written so far (array documents)
+//	jalen(t, w), jaidx(t, w)  number of items written so far and the items by position (array documents)
 //
 // The events are produced by the library models of Write / Encode below. What
 // a Write call writes is classified from the way the emitted code builds the
@@ -42,6 +42,8 @@ const (
 	jkNull    // null
 )
 
+var jsonViewNames = []string{"jst", "jobj", "jdup", "jkey", "jalen", "jaidx"}
+
 const jsonPrelude = `(declare-sort JVal 0)
 (declare-datatypes ((JOpt 0)) (((j_none) (j_some (j_val JVal)))))
 (declare-fun jv_null () JVal)
@@ -52,8 +54,10 @@ const jsonPrelude = `(declare-sort JVal 0)
 (declare-fun jobj (Trace Iface) (Array Str JOpt))
 (declare-fun jdup (Trace Iface) Bool)
 (declare-fun jkey (Trace Iface) Str)
-(declare-fun jarr (Trace Iface) GSeq)
-(declare-fun jv_box (JVal) Int)
+(declare-fun jalen (Trace Iface) Int)
+(declare-fun jaidx (Trace Iface) (Array Int JOpt))
+(declare-const j_noitems (Array Int JOpt))
+(assert (forall ((i Int)) (! (= (select j_noitems i) j_none) :pattern ((select j_noitems i)))))
 (define-fun j_start ((s Int) (c Str)) Bool (or (and (or (= s 0) (= s 10) (= s 3) (= s 13)) (= c str_empty)) (and (or (= s 2) (= s 12)) (= c lit_comma))))
 (define-fun j_base ((s Int)) Int (ite (< s 10) 0 10))
 (declare-const j_empty (Array Str JOpt))
@@ -75,7 +79,7 @@ func (e *FuncEnc) jsonNeutral(fn string, bs []string, ev string) {
 	}
 	e.needJSON()
 	q := strings.Join(bs, " ")
-	for _, view := range []string{"jst", "jobj", "jdup", "jkey", "jarr"} {
+	for _, view := range jsonViewNames {
 		e.D.Axiom("json:"+view+":"+fn, fmt.Sprintf("(forall ((t Trace) (w Iface) %s) (! (= (%s (tr_cons t %s) w) (%s t w)) :pattern ((%s (tr_cons t %s) w))))", q, view, ev, view, view, ev))
 	}
 }
@@ -113,7 +117,9 @@ func (e *FuncEnc) jsonEvents() {
 		ax("tok", vars, ev, "jobj", "", fmt.Sprintf("(ite (= k %d) (store (jobj t w) n (j_some jv_null)) (jobj t w))", jkKeyNull))
 		ax("tok", vars, ev, "jdup", "", fmt.Sprintf("(or (jdup t w) (and (or (= k %d) (= k %d)) ((_ is j_some) (select (jobj t w) n))))", jkKeyNull, jkKey))
 		ax("tok", vars, ev, "jkey", "", fmt.Sprintf("(ite (= k %d) n (jkey t w))", jkKey))
-		ax("tok", vars, ev, "jarr", "", fmt.Sprintf("(ite (= k %d) (seq_cons (jarr t w) (jv_box jv_null)) (jarr t w))", jkNull))
+		arrSt := "(or (= (jst t w) 20) (= (jst t w) 23))"
+		ax("tok", vars, ev, "jalen", "", fmt.Sprintf("(ite (and (= k %d) %s) (+ (jalen t w) 1) (jalen t w))", jkNull, arrSt))
+		ax("tok", vars, ev, "jaidx", "", fmt.Sprintf("(ite (and (= k %d) %s) (store (jaidx t w) (jalen t w) (j_some jv_null)) (jaidx t w))", jkNull, arrSt))
 	}
 	// --- encode one value
 	{
@@ -124,7 +130,8 @@ func (e *FuncEnc) jsonEvents() {
 		ax("enc", vars, ev, "jobj", "", fmt.Sprintf("(ite (or (= %s 1) (= %s 11)) (store (jobj t w) (jkey t w) (j_some (jv_enc v))) (jobj t w))", s, s))
 		ax("enc", vars, ev, "jdup", "", "(jdup t w)")
 		ax("enc", vars, ev, "jkey", "", "(jkey t w)")
-		ax("enc", vars, ev, "jarr", "", fmt.Sprintf("(ite (or (= %s 20) (= %s 23)) (seq_cons (jarr t w) (jv_box (jv_enc v))) (jarr t w))", s, s))
+		ax("enc", vars, ev, "jalen", "", fmt.Sprintf("(ite (or (= %s 20) (= %s 23)) (+ (jalen t w) 1) (jalen t w))", s, s))
+		ax("enc", vars, ev, "jaidx", "", fmt.Sprintf("(ite (or (= %s 20) (= %s 23)) (store (jaidx t w) (jalen t w) (j_some (jv_enc v))) (jaidx t w))", s, s))
 	}
 	// --- splice the complete bare member list of another writer
 	{
@@ -139,7 +146,8 @@ func (e *FuncEnc) jsonEvents() {
 		e.D.Axiom("json:overlap-witness", "(forall ((a (Array Str JOpt)) (b (Array Str JOpt))) (! (=> (j_overlap a b) (and ((_ is j_some) (select a (j_ow a b))) ((_ is j_some) (select b (j_ow a b))))) :pattern ((j_overlap a b))))")
 		ax("spl", vars, ev, "jdup", "", "(or (jdup t w) (jdup t u) (j_overlap (jobj t w) (jobj t u)))")
 		ax("spl", vars, ev, "jkey", "", "(jkey t w)")
-		ax("spl", vars, ev, "jarr", "", "(jarr t w)")
+		ax("spl", vars, ev, "jalen", "", "(jalen t w)")
+		ax("spl", vars, ev, "jaidx", "", "(jaidx t w)")
 	}
 	// --- failed / short / unclassified write
 	{
@@ -149,7 +157,8 @@ func (e *FuncEnc) jsonEvents() {
 		ax("bad", vars, ev, "jobj", "", "(jobj t w)")
 		ax("bad", vars, ev, "jdup", "", "(jdup t w)")
 		ax("bad", vars, ev, "jkey", "", "(jkey t w)")
-		ax("bad", vars, ev, "jarr", "", "(jarr t w)")
+		ax("bad", vars, ev, "jalen", "", "(jalen t w)")
+		ax("bad", vars, ev, "jaidx", "", "(jaidx t w)")
 	}
 }
 
@@ -473,9 +482,10 @@ func (e *FuncEnc) assumeDoc(bs, w string) {
 	e.D.UF("doc_st", []string{"Slice"}, "Int")
 	e.D.UF("doc_obj", []string{"Slice"}, "(Array Str JOpt)")
 	e.D.UF("doc_dup", []string{"Slice"}, "Bool")
-	e.D.UF("doc_arr", []string{"Slice"}, "GSeq")
+	e.D.UF("doc_alen", []string{"Slice"}, "Int")
+	e.D.UF("doc_aidx", []string{"Slice"}, "(Array Int JOpt)")
 	t := e.cur.trace
-	e.assume(e.curReach, and(eq(sx("doc_st", bs), sx("jst", t, w)), eq(sx("doc_obj", bs), sx("jobj", t, w)), eq(sx("doc_dup", bs), sx("jdup", t, w)), eq(sx("doc_arr", bs), sx("jarr", t, w))))
+	e.assume(e.curReach, and(eq(sx("doc_st", bs), sx("jst", t, w)), eq(sx("doc_obj", bs), sx("jobj", t, w)), eq(sx("doc_dup", bs), sx("jdup", t, w)), eq(sx("doc_alen", bs), sx("jalen", t, w)), eq(sx("doc_aidx", bs), sx("jaidx", t, w))))
 }
 
 // jsonInvoke models out.Write(bs) on an io.Writer.
@@ -511,7 +521,7 @@ func (e *FuncEnc) freshBufferFacts(x *ssa.Alloc, addr string) {
 		}
 	}
 	tr := e.cur.trace
-	e.assume("true", and(eq(sx("jst", tr, w), "0"), eq(sx("jobj", tr, w), "j_empty"), not(sx("jdup", tr, w)), eq(sx("jarr", tr, w), "seq_nil")))
+	e.assume("true", and(eq(sx("jst", tr, w), "0"), eq(sx("jobj", tr, w), "j_empty"), not(sx("jdup", tr, w)), eq(sx("jalen", tr, w), "0"), eq(sx("jaidx", tr, w), "j_noitems")))
 	e.Assumed["a bytes.Buffer variable starts empty"] = true
 }
 
@@ -541,7 +551,7 @@ func (e *FuncEnc) mergeTraces(conds, trs []string) string {
 	e.jsonEvents()
 	m := e.newSym("trm", "Trace")
 	for _, w := range ws {
-		for _, view := range []string{"jst", "jobj", "jdup", "jkey", "jarr"} {
+		for _, view := range jsonViewNames {
 			expr := sx(view, trs[len(trs)-1], w)
 			for i := len(trs) - 2; i >= 0; i-- {
 				expr = ite(conds[i], sx(view, trs[i], w), expr)
